@@ -4,7 +4,10 @@ set -u
 ID=$1; TIER=${2:-quick}; CHK=${3:-${ID%%-*}}
 EV=/tmp/rc-$ID-$$
 OUT=/verif/seeded/$ID
-git -C /repo worktree add -q --detach $EV HEAD || exit 2
+# a change written against an older commit whose context a later fix: commit rewrote is
+# re-checked on the commit it was written for (file base_commit)
+BASE=HEAD; [ -f $OUT/base_commit ] && BASE=$(cat $OUT/base_commit)
+git -C /repo worktree add -q --detach $EV $BASE || exit 2
 ( cd $EV && git apply $OUT/patch.diff ) || { echo "patch does not apply"; git -C /repo worktree remove --force $EV; exit 2; }
 cd /verif
 VERIF_REPO=$EV ./check.sh $CHK $TIER > $OUT/check-$CHK-$TIER.log 2>&1; RC=$?
